@@ -607,7 +607,7 @@ func main() {
 
 	res := &corr.Result{Property: id, Tier: *tier, Seed: *seed, Hist: map[string]int{}, Failures: []corr.Failure{}, Exhaustive: true,
 		Rule: "programs of 2–4 goroutines × 1–3 operations over a small shared name set (each name consistently a file or a directory); for each program every schedule with at most 2 (quick) / 3 (thorough) preemptions at lock-acquisition granularity, each run in a child process; non-trivial = at least two operations of different goroutines touch a common name and the schedule preempts inside a multi-section operation; distinct by (program, schedule) hash"}
-	nPrograms, maxPre, maxSched := 60, 2, 400
+	nPrograms, maxPre, maxSched := 120, 2, 400
 	if *tier == "thorough" {
 		nPrograms, maxPre, maxSched = 1500, 3, 3000
 	}
@@ -994,6 +994,15 @@ func corpus() []Job {
 		{Setup: []string{"create " + h("/a"), "h.write 0 6162"}, Threads: [][]string{
 			{"openfile " + h("/a") + " 2 420", "h.writeat 0 5859 4"},
 			{"stat " + h("/a"), "stat " + h("/a")}}},
+		// Remove of a name that is renamed away and re-created meanwhile: whichever order, the tree stays consistent
+		{Setup: []string{"mkdir " + h("/d") + " 493", "create " + h("/d/f")}, Threads: [][]string{
+			{"remove " + h("/d/f")}, {"rename " + h("/d/f") + " " + h("/b"), "create " + h("/d/f")}}},
+		{Setup: []string{"create " + h("/a")}, Threads: [][]string{
+			{"remove " + h("/a")}, {"rename " + h("/a") + " " + h("/b"), "create " + h("/a")}, {"stat " + h("/b")}}},
+		// a positional read racing with a truncation below its offset, through two handles
+		{Setup: []string{"create " + h("/a"), "h.write 0 616263646566"}, Threads: [][]string{
+			{"openfile " + h("/a") + " 0 420", "h.readat 0 16 3", "h.read 0 4"},
+			{"openfile " + h("/a") + " 2 420", "h.trunc 0 1", "h.write 0 5859"}}},
 		// S12: Rename ‖ Remove of the same file
 		{Setup: []string{"create " + h("/a")}, Threads: [][]string{{"rename " + h("/a") + " " + h("/b")}, {"remove " + h("/a")}}},
 		// S14: two exclusive creates of one name
